@@ -13,19 +13,19 @@ AX_REAL = ("theorems over R depend on the standard-library axioms ClassicalDedek
 COMMON = ("Trusted: Coq 8.16.1 kernel + vm_compute (no native_compute); no Axiom/Parameter/Admitted of our own "
           "(grepped each run); numpy/scipy primitives are modelled, binary64 rounding is outside the theorems. ")
 
-CHECKS = {
-    "C09": dict(
-        text=("Theorems (for all path lengths, input lengths, start values, any rigid-motion algebra): the model of "
-              "apply_move/apply_rotation/multi_anchor/setters equals the declarative path semantics; equal-length>=1 "
-              "invariant over every history. path_padding_param and pad_slice_path are re-translated from /repo on "
-              "every run; the rest of the model is tied by an exact history correspondence (integer positions, "
-              "octahedral rotations) and a float oracle sweep + rotate_from_* equivalence + rejection battery."),
-        note=COMMON + AX_CLOSED + ". Translator translate/gen_path.py; hand model PathModel.v tied by correspondence; "
-             "scipy Rotation.from_* conversions and input validators are exercised, not modelled.",
-        technique="Coq proof over translated padding arithmetic + model/implementation history correspondence",
-        design="5 (C09), Appendix A.1"),
-}
+def load_checks():
+    """one harness/props/Cxx.meta.json per claimed property: {text, note, technique, design}"""
+    out = {}
+    for pid in ALL:
+        p = os.path.join(VERIF, "harness", "props", pid + ".meta.json")
+        if os.path.exists(p):
+            out[pid] = json.load(open(p))
+    return out
 
+
+CHECKS = load_checks()
+
+NA = {}   # property id -> reason, for properties the technique cannot decide
 NOT_YET = "not built yet in this development (work in progress; see DESIGN.md section 9 build order)"
 
 
@@ -43,7 +43,7 @@ def main():
             "replay_cmd_template": f"./check {pid} --replay {{path}}",
             "engine": "coq-harness",
             "level_claimed": {"category": "proof", "text": c["text"], "design_ref": c["design"]},
-            "level_note": c["note"],
+            "level_note": COMMON + c["note"],
             "technique": c["technique"],
         })
     man = {
@@ -64,7 +64,7 @@ def main():
                               "and search harness (harness/)",
         }],
         "checks": checks,
-        "not_applicable": [{"property_id": p, "reason": NOT_YET} for p in ALL if p not in CHECKS],
+        "not_applicable": [{"property_id": p, "reason": NA.get(p, NOT_YET)} for p in ALL if p not in CHECKS],
         "notes": "See DESIGN.md. Every check: regen Gen/*.v from /repo -> make -> correspondence -> search -> verdict.",
     }
     with open(os.path.join(VERIF, "MANIFEST.json"), "w") as f:
